@@ -232,7 +232,7 @@ fn stage2(run: &Run, quick: bool) {
                 json!({"tt": {"slots": if quick { json!(["glyph"]) } else { json!(["fpgm", "prep", "glyph"]) },
                     "extremes": if quick { deep::EXTREMES[..4].to_vec() } else { deep::EXTREMES.to_vec() }, "small": deep::SMALL, "setups": deep::SETUP_NAMES,
                     "opcodes_per_batch": 256, "maxp": "stack 64, storage 16, functions 16, twilight 16"},
-                    "glyf_end_points": deep::END_POINTS, "cff_units_per_em": deep::UPEMS, "plan_for_glyf_and_cff": "strict"}),
+                    "fdselect_variants": deep::fdselect_variants().iter().map(|(l, _)| l.clone()).collect::<Vec<_>>().len(), "glyf_end_points": deep::END_POINTS, "cff_units_per_em": deep::UPEMS, "plan_for_glyf_and_cff": "strict"}),
             )],
             sample,
             get: Box::new(move |i| cases[i as usize].clone()),
